@@ -14,6 +14,12 @@ Line-protocol front end of the C06 model.
   checker on the named effect program of `Model/Elements.lean` and the observable footprint of
   running it (the footprint does not depend on the input value or on the meaning of the array
   operations; the driver runs it on a fixed input with a fixed interpretation).
+* `C06 first-fft NAME` → `ok safe=B sharesInput=B overwrite=B` : `safe` on the named effect program and what its
+  first Fourier transform is handed (`Elements.firstFft`: the argument uses the caller's buffer / may be overwritten);
+  compared with the arguments of the first `fftn` call of a real `FourierFilter` (harness: `first_fft_tie`).
+* `C06 first-fft-old NS SD PAD` (bits) → the same for the defect class `fourierFilterIdentityTestOld (castOf NS SD) PAD`
+  (new-style fields? field already of the dtype? zero padding?); the harness checks the verdicts against the seeded
+  regression's description (rejected exactly for 1 1 0).
 * `C06 effects-loop NAME N` → the same for `(loopProgramByName NAME).unroll N`: the program with `N` rounds of its loop
   (scales of a multi-scale coronagraph beyond the first, elements of a layered atmosphere); theorem
   `shipped_loop_programs_safeAll`.
@@ -151,7 +157,26 @@ def effectsAnswer (p : Prog) : String :=
   let t := if o.touches.isEmpty then "-" else ",".intercalate (o.touches.map showTouch)
   s!"ok safe={showBool (safe p)} retIsInput={showBool o.retIsInput} retShares={showBool o.retSharesBuf} writes={w} safeGrid={showBool (safeAttr .grid p)} safeStokes={showBool (safeAttr .stokes p)} retSharesGrid={sg} touches={t} created={o.created}"
 
+def bit? : String → Option Bool
+  | "1" => some true
+  | "0" => some false
+  | _ => none
+
+def firstFftAnswer (p : Prog) : String :=
+  match HcipyVerif.Elements.firstFft demoSem p demoIn with
+  | some (sh, ip) => s!"ok safe={showBool (safe p)} sharesInput={showBool sh} overwrite={showBool ip}"
+  | none => s!"ok safe={showBool (safe p)} sharesInput=- overwrite=-"
+
 def step (st : St) : List String → St × String
+  | ["first-fft-old", ns, sd, pd] =>
+    match bit? ns, bit? sd, bit? pd with
+    | some ns, some sd, some pd =>
+      (st, firstFftAnswer (HcipyVerif.Elements.fourierFilterIdentityTestOld (HcipyVerif.Elements.castOf ns sd) pd))
+    | _, _, _ => (st, "bad-op")
+  | ["first-fft", name] =>
+    match HcipyVerif.Elements.programByName name with
+    | some p => (st, firstFftAnswer p)
+    | none => (st, "bad-op")
   | ["effects", name] =>
     match HcipyVerif.Elements.programByName name with
     | some p => (st, effectsAnswer p)
